@@ -160,6 +160,10 @@ func Codec(name string) (iface.IO, error) {
 		if err != nil {
 			return nil, err
 		}
+		// the caller scrubs its copy of the key material once the key object exists (the key object keeps its own)
+		for i := range key {
+			key[i] = 0
+		}
 		return base.ApplyOptions(&cbor.Options{LinkKey: sk}), nil
 	case "pb":
 		return pb.IO(&entry.Entry{}, &entry.LamportClock{})
